@@ -172,7 +172,7 @@ class Env:
             raise TaggedStop(("stop", e.name))
         if b == "pop_all_inside":
             self.moved.append(self.current_stack.pop_all())
-        if b == "push_inside":
+        if b == "push_inside" and self.count[e.name] == 1:
             name = e.name + "+"
 
             def late_exit(et, ev, tb, name=name):
@@ -517,6 +517,8 @@ def execute(st, ctx):
         sig = ("program",)
         if sim.deadlock:
             out.violate("C14.deadlock", sig, describe())
+        elif sim.capped:
+            out.violate("C14.unwind_does_not_terminate", sig, dict(describe(), steps=sim.seq))
         elif not sim.capped:
             if not res_a or not res_r:
                 out.violate("C14.did_not_finish", sig, describe())
@@ -561,6 +563,8 @@ def execute(st, ctx):
         sig = ("history",)
         if sim.deadlock:
             out.violate("C14.deadlock", sig, describe())
+        elif sim.capped:
+            out.violate("C14.unwind_does_not_terminate", sig, dict(describe(), steps=sim.seq))
         elif not sim.capped:
             marks = [r for r in res_a if r[0] == "marks"]
             if not marks:
